@@ -43,10 +43,17 @@ func ZZH_C12_binary_keys() {
 	if !onlyLater {
 		l.SetState(a, k2, w1, nil)
 	}
+	// a second account holds the same first key with its own value; a later block may touch only
+	// this account (the journals of consecutive blocks then start with different accounts)
+	b := zzAddrs[1]
+	u1 := []byte{zz.U8("u1")}
+	l.SetState(b, k1, u1, nil)
 	root1 := zzCommit(l, 1)
 	heights := 2 + zz.Choice("extra-block", 2)
 	for h := 2; h <= heights; h++ {
-		switch zz.Choice("change", 3) {
+		switch zz.Choice("change", 4) {
+		case 3:
+			l.SetState(b, k2, []byte{zz.U8("x2")}, nil)
 		case 0:
 			l.SetState(a, k1, []byte{zz.U8("v2")}, nil)
 			l.SetState(a, k2, []byte{zz.U8("w2")}, nil)
@@ -78,8 +85,17 @@ func ZZH_C12_binary_keys() {
 		}
 		zz.Assert("C12.bin."+tag+".no-junk-key-written", n == want)
 	}
+	checkB := func(tag string, x *SimpleLedger) {
+		okb, gb := x.GetState(b, k1)
+		zz.Assert("C12.bin."+tag+".other-account-keeps-its-own-value", zz.And(okb, zz.EqBytes(gb, u1)))
+		okc, _ := x.GetState(b, k2)
+		zz.Assert("C12.bin."+tag+".other-account-later-key-gone", !okc)
+	}
 	check("live", l)
+	checkB("live", l)
 	zz.Assert("C12.bin.root-chain", zz.EqBytes(l.prevJnlHash.Bytes(), root1.Bytes()))
 	cache2, _ := NewAccountCache()
-	check("reopen", zzNewLedger(store, cache2))
+	l2 := zzNewLedger(store, cache2)
+	check("reopen", l2)
+	checkB("reopen", l2)
 }
